@@ -25,6 +25,11 @@ def validator(schema, instances):
     return json.loads(line)
 
 
+def YD(d):
+    """day token -> (year, month, day): 2, 3 are days of January 2020; 22, 23 are 2 and 3 January of the year 33"""
+    return (33, 1, d - 20) if d >= 20 else (2020, 1, d)
+
+
 def mk(v):
     k = v["k"]
     if k == "none":
@@ -38,10 +43,10 @@ def mk(v):
     if k == "bool":
         return v["b"]
     if k == "date":
-        return dt.date(2020, 1, v["t2"] // 2)
+        return dt.date(*YD(v["t2"] // 2))
     if k == "datetime":
-        d = v["t2"] // 2
-        return dt.datetime(2020, 1, d, 12, 30, 15, 250) if v["t2"] % 2 else dt.datetime(2020, 1, d)
+        y, m, d = YD(v["t2"] // 2)
+        return dt.datetime(y, m, d, 12, 30, 15, 250) if v["t2"] % 2 else dt.datetime(y, m, d)
     if k == "tuple":
         return tuple(mk(x) for x in v["items"])
     if k == "list":
@@ -61,10 +66,10 @@ def tojson(j):
         return j["n2"] // 2 if j["int"] else j["n2"] / 2.0 + (0.0 if j["n2"] != 9 else 1e-9)
     if k == "str":
         if "t2" in j:
-            d = j["t2"] // 2
+            y, m, d = YD(j["t2"] // 2)
             if j["s"] == "date":
-                return "2020-01-%02d" % d
-            return "2020-01-%02dT12:30:15.000250" % d if j["t2"] % 2 else "2020-01-%02dT00:00:00.000000" % d
+                return "%04d-01-%02d" % (y, d)
+            return "%04d-01-%02dT12:30:15.000250" % (y, d) if j["t2"] % 2 else "%04d-01-%02dT00:00:00.000000" % (y, d)
         return mk({"k": "str", "s": j["s"]})
     if k == "arr":
         return [tojson(x) for x in j["items"]]
@@ -276,5 +281,20 @@ def _replay(tab, opts):
         exp_ty = tab["schema"]["ty"]
         if exp_ty not in ("any",) and schema.get("type") != exp_ty:
             return fail("schema_type", "schema type is %r, spec expects %r: %s" % (schema.get("type"), exp_ty, schema))
+    if tab.get("readonly") and mode in ("both", "roundtrip"):
+        # last, because a divergence ends the table: a class with a read-only and a constant parameter
+        R = type("R", (param.Parameterized,), {"x": declare(t, c, mk(nn[0]["v"])), "ro": param.Integer(7, readonly=True),
+                                               "k": param.Integer(3, constant=True)})
+        r0 = R(x=mk(nn[0]["v"]), k=4)
+        text = api("serialize_parameters()", r0.param.serialize_parameters)
+        kwargs = api("deserialize_parameters(%s)" % text, R.param.deserialize_parameters, text)
+        try:
+            r1 = R(**kwargs)
+        except Exception as e:  # noqa
+            f = fail("readonly_rebuild", "deserialize_parameters(%s) gave %r which the constructor rejects: %s" % (text, kwargs, e))
+            f["tags"] = sorted(tab.get("kf", []))
+            return f
+        if (r1.x, r1.ro, r1.k) != (r0.x, r0.ro, r0.k):
+            return fail("roundtrip", "object with read-only / constant parameters came back as %r, original %r" % ((r1.x, r1.ro, r1.k), (r0.x, r0.ro, r0.k)))
     res["sample"] = {"t": t, "c": c, "cases": cases[:3]}
     return res
